@@ -111,6 +111,9 @@ type CLICase struct {
 	Via      string   `json:"via"`    // flag | env | project | project+envdiff
 	Dev      bool     `json:"dev"`    // --dev-url given
 	Source   string   `json:"source"` // hcl | db
+	// Rebuild: the desired state also changes the type of shared.shown, which SQLite can only do by
+	// re-creating the table: whatever is excluded or skipped on that table must survive the rebuild.
+	Rebuild bool `json:"rebuild,omitempty"`
 }
 
 // reference: is the table / column hit by a pattern? (table pattern = one segment; column pattern = table.child)
@@ -153,9 +156,17 @@ func evalCLI(c CLICase) (problems []string) {
 		return []string{"harness: " + err.Error()}
 	}
 	to := "file://" + w.Path("desired.hcl")
-	os.WriteFile(w.Path("desired.hcl"), []byte(cliDesiredHCL), 0o644)
+	desiredHCL, desiredDDL := cliDesiredHCL, cliDesiredDDL
+	if c.Rebuild {
+		desiredHCL = strings.Replace(desiredHCL, "column \"shown\" {\n    type = text", "column \"shown\" {\n    type = integer", 1)
+		desiredDDL = append([]string(nil), cliDesiredDDL...)
+		for i := range desiredDDL {
+			desiredDDL[i] = strings.Replace(desiredDDL[i], "shown text NULL", "shown integer NULL", 1)
+		}
+	}
+	os.WriteFile(w.Path("desired.hcl"), []byte(desiredHCL), 0o644)
 	if c.Source == "db" {
-		if err := w.Exec("desired.sqlite", cliDesiredDDL...); err != nil {
+		if err := w.Exec("desired.sqlite", desiredDDL...); err != nil {
 			return []string{"harness: " + err.Error()}
 		}
 		to = w.URL("desired.sqlite")
@@ -308,6 +319,15 @@ func cliCases(tier string) []CLICase {
 			}
 		}
 	}
+	// the same with the table shared re-created for another change.
+	for _, via := range []string{"flag", "env"} {
+		for _, ps := range [][]string{nil, {"shared.hidden"}, {"shared.extra"}, {"shared.*[type=column]"}} {
+			cs = append(cs, CLICase{Patterns: ps, Via: via, Source: "hcl", Rebuild: true})
+		}
+	}
+	for _, sk := range [][]string{{"drop_column"}, {"add_column", "drop_column"}} {
+		cs = append(cs, CLICase{Skip: sk, Via: "env", Source: "hcl", Rebuild: true})
+	}
 	sort.SliceStable(cs, func(i, j int) bool { return len(cs[i].Patterns)+len(cs[i].Skip) < len(cs[j].Patterns)+len(cs[j].Skip) })
 	return cs
 }
@@ -330,6 +350,24 @@ func runCLI(r *report.Run) int {
 // table is created from the desired table (with the column whose AddColumn was skipped) and the row
 // copy then selects that column from the old table.
 func classifyCLI(c CLICase, problems []string) string {
+	if c.Rebuild && has(c.Skip, "add_column") {
+		for _, p := range problems {
+			if !strings.Contains(p, "`schema apply` failed") || !strings.Contains(p, "no such column: extra") {
+				return ""
+			}
+		}
+		return "sqlite-rebuild-with-skipped-add-column-copies-a-column-the-old-table-lacks"
+	}
+	if c.Rebuild {
+		// the rebuild creates the new table from the desired one and copies the common columns: a column
+		// that is excluded, or whose DropColumn is skipped, is not in the plan and yet gone afterwards.
+		for _, p := range problems {
+			if !strings.HasPrefix(p, "column shared.hidden present=false after apply, expected true") {
+				return ""
+			}
+		}
+		return "sqlite-rebuild-destroys-a-column-that-is-excluded-or-whose-drop-is-skipped"
+	}
 	if !has(c.Skip, "add_column") || has(c.Skip, "drop_column") {
 		return ""
 	}
